@@ -48,7 +48,7 @@ def inhalf(vec):
     return vec - np.floor(vec + 0.5)
 
 
-def maptranslation(oldpos, newpos, oldspins=None, newspins=None, threshold=1e-8):
+def maptranslation(oldpos, newpos, oldspins=None, newspins=None, threshold=1e-8, allmaps=False):
     """
     Given a list of transformed positions, identify if there's a translation vector
     that maps from the current positions to the new position.
@@ -64,6 +64,8 @@ def maptranslation(oldpos, newpos, oldspins=None, newspins=None, threshold=1e-8)
     :param newpos: list of list of array[3], same layout as oldpos
     :param oldspins: (optional) list of list of numbers/arrays
     :param newspins: (optional) list of list of numbers/arrays
+    :param allmaps: (optional) if True, return a list of *all* (translation, mapping) pairs instead of
+      the first one found; there is more than one for a cell that is not primitive
     :return translation: array[3]
     :return mapping: list of list of indices
     """
@@ -99,6 +101,7 @@ def maptranslation(oldpos, newpos, oldspins=None, newspins=None, threshold=1e-8)
             maxlen = len(ulist)
             atomindex = i
     ru0 = newpos[atomindex][0]
+    maplist_all = []
     for ub in oldpos[atomindex]:
         trans = inhalf(ub - ru0)
         foundmap = True
@@ -118,7 +121,11 @@ def maptranslation(oldpos, newpos, oldspins=None, newspins=None, threshold=1e-8)
                 foundmap = False
             else:
                 indexmap.append(tuple(maplist))
-        if foundmap: break
+        if foundmap:
+            if not allmaps: break
+            maplist_all.append((trans, tuple(indexmap)))
+    if allmaps:
+        return maplist_all
     if foundmap:
         return trans, tuple(indexmap)
     else:
@@ -1062,12 +1069,14 @@ class Crystal(object):
                 # if det * tr < -1 or det * tr > 3: return False
                 for phase in rootsofunity(optype):
                     newspins = [[phase * s for s in spinlist] for spinlist in rotspins]
-                    trans, indexmap = maptranslation(self.basis,
-                                                     [[np.dot(supercell, u)
-                                                       for u in atomlist]
-                                                      for atomlist in self.basis],
-                                                     spins, newspins, threshold=self.threshold)
-                    if indexmap is not None:
+                    # all translations: a cell that is not primitive (noreduce=True) has several for each
+                    # rotation, and keeping only one of them would not give a group
+                    for trans, indexmap in maptranslation(self.basis,
+                                                          [[np.dot(supercell, u)
+                                                            for u in atomlist]
+                                                           for atomlist in self.basis],
+                                                          spins, newspins, threshold=self.threshold,
+                                                          allmaps=True):
                         groupops.append(GroupOp(supercell,
                                                 trans,
                                                 cartrot,
